@@ -232,7 +232,7 @@ def verify_case(case, repo=None, summaries_lib=None, seed=0, scope=None, initial
                     res.v("no-other-exception").add(st, dt, prims_of(m), f"undocumented {cls} escapes")
         if n_return:
             res.v("no-other-exception").add("unsat")
-        res.covers["return"] = n_return > 0
+        res.covers["return"] = n_return > 0 or not case.ensures  # a raises-only contract states no return clause
         for exc in raises:
             res.covers["raise:" + exc] = exc in seen_raise
         for label in case.ensures:
